@@ -71,6 +71,29 @@ int main(int argc, char **argv)
                 o.w64("r", k ? r2.fe : r1.fe);
                 o.end();
             }
+            if (op == "div")
+            { // aliasing: the result object is the dividend / the divisor
+                E x{a};
+                Goldilocks::div(x, x, E{b});
+                o.begin("div");
+                o.num("ci", ci);
+                o.str("op", op);
+                o.str("form", "out=a");
+                o.w64("a", a);
+                o.w64("b", b);
+                o.w64("r", x.fe);
+                o.end();
+                E y{b};
+                Goldilocks::div(y, E{a}, y);
+                o.begin("div");
+                o.num("ci", ci);
+                o.str("op", op);
+                o.str("form", "out=b");
+                o.w64("a", a);
+                o.w64("b", b);
+                o.w64("r", y.fe);
+                o.end();
+            }
             if (op == "inv")
             { // aliasing: result is the operand
                 E x{a};
